@@ -74,7 +74,7 @@ PROPS["C09"] = dict(
     technique="exhaustive enumeration of key sizes/curves x algorithms x {generate, verify} x providers on the real code",
     level_text=("every oct length 1-160 x HS256/384/512, every pool RSA size (512...4096 incl. 2047/2048/2056, e=3, 33-bit e, RSA-PSS) "
                 "x RS*/PS*, every curve x every ES*, Ed25519/Ed448/X25519 x EdDSA, plus every cross-family pair, for generate and "
-                "for verify of a token made by the reference with the weak key itself; both providers; oct keys of every length are also presented with k padded, over-padded and followed by = plus further text (the floor is judged on the bytes the key really has); seven EC keys on curves outside JOSE (brainpool 256/320/384/512, secp224r1, prime192v1) against every ES algorithm"),
+                "for verify of a token made by the reference with the weak key itself; both providers; oct keys of every length are also presented with k padded, over-padded and followed by = plus further text (the floor is judged on the bytes the key really has); seven EC keys on curves outside JOSE (brainpool 256/320/384/512, secp224r1, prime192v1) against every ES algorithm; every RSA pool key also with 1, 2 and 129 zero octets in front of n"),
     level_note="the verify token is signed by ref_crypto with the same weak key, so a loosened floor shows up as an acceptance",
     rule=("one cell per (key, algorithm); each cell runs generate and verify; non-trivial = a key at/above the floor that generated "
           "a token which the reference verifies, or whose reference-signed token the library accepts; distinct by cell descriptor"),
@@ -191,7 +191,7 @@ PROPS["C16"] = dict(
                 "with the list capped at 9 items, depth 5 (quick) / 9 (thorough); every history is replayed on a fresh real keyring "
                 "and after every step count, get(i) for i <= n+1, find_bykid for seven kids, error_any, set error and per-item "
                 "kid/kty/error are compared with ref_list; ASan watches for use-after-free; live blocks of libjwt, jansson and "
-                "libcrypto are counted per history for leaks"),
+                "libcrypto are counted per history for leaks; get at indexes 2^31, 2^32, 3*2^32, 2^63 ... + i and free(2^32)"),
     level_note="ref_list = model_list_step() in harness/jwk.c; states merged on the model list + set error flag, which determine every observer",
     rule=("states = distinct model lists; transitions = state x operation, each executed on the real keyring by replaying the state's "
           "shortest history; non-trivial = the operation changed the list or the error flag"),
@@ -210,7 +210,7 @@ PROPS["C07"] = dict(
                 "variants, and for ten JWK templates every member x 16 shapes (thorough: every pair of members x pair of shapes) is "
                 "loaded through the applicable entry points; set error, item count, document order (set vs element-by-element), "
                 "per-item error/message/material and agreement between entry points are judged against jansson's own verdict on "
-                "the text; every imported key is then used for a sign/verify attempt (memory safety only); member shapes include non-ASCII UTF-8 text and leading/embedded = padding"),
+                "the text; every imported key is then used for a sign/verify attempt (memory safety only); member shapes include non-ASCII UTF-8 text and leading/embedded = padding; the counted-reader length sweep (embedded NUL, trailing junk) also runs through the file and FILE* readers"),
     level_note="trusts jansson's json_loadb(JSON_DECODE_ANY) as the definition of 'is JSON'; ASan/UBSan for the crash clause; live-block counts of libjwt+jansson+libcrypto for leaks",
     rule=("evaluations = load calls judged; cases group inputs by family; non-trivial = distinct documents (by content hash) that "
           "produced at least one item; distinct outcomes = (set error, item count) vectors"),
@@ -230,7 +230,7 @@ PROPS["C08"] = dict(
                 "foreign member); thorough adds the full product for six representative keys.  The PEM the library hands out is "
                 "re-parsed by libcrypto and n,e,d,p,q,dp,dq,qi / group,x,y,d / raw OKP keys are compared as integers with the "
                 "harness's own base64url+BIGNUM reading of the JWK; metadata is compared with what the JWK states; foreign members "
-                "must leave PEM and metadata unchanged; every pool key is also imported right after each of 8 defective keys (separate set alive or freed, same JWKS), and oct k is also written with = padding (no import demand, but bytes and bits must match what precedes the padding)"),
+                "must leave PEM and metadata unchanged; every pool key is also imported right after each of 8 defective keys (separate set alive or freed, same JWKS), and oct k is also written with = padding (no import demand, but bytes and bits must match what precedes the padding); the key type in the PEM follows the alg (RSA-PSS exactly for PS*)"),
     level_note="the pool is fixed and committed (corner shapes chosen on purpose); random regeneration would be sampling",
     rule=("evaluations = import calls; non-trivial = distinct JWK texts imported without error and compared; zero-padded and "
           "minimal-length integer encodings are named by the quantifier and must import as well"),
@@ -295,7 +295,7 @@ PROPS["C01"] = dict(
                 "and payload, every splice with the signature of every other pool token, every signature made with another "
                 "algorithm, and a list of adversarial assemblies (attacker-keyed HMACs, ECDSA (0,0)/(n,n)/(r,n-s)/DER, RSA s in "
                 "{0,1,n-1,n,s+n}, EdDSA zero/identity) is verified; acceptance is permitted only if ref_crypto finds the signature "
-                "valid under the configured key and the header names the pinned algorithm"),
+                "valid under the configured key and the header names the pinned algorithm; junk octets between or around a zero octet and the signature (00||junk||sig, junk||sig, sig||junk||00)"),
     level_note="one-directional (accepted => valid at the integer level): malleability-only variants are not flagged, by design (DESIGN 3 C01)",
     rule=("evaluations = verifications judged; cases = (pair, base token source, mutation class chunk); non-trivial = cases that ran a "
           "mutation class against a base token that itself verifies; accepted mutants are each confirmed by the reference (counter)"),
@@ -313,7 +313,7 @@ PROPS["C12"] = dict(
                 "both providers; byte-identical output for HS*, RS*, EdDSA; every C01 mutant the reference calls invalid must be "
                 "rejected by both providers; every depth-3 history over the d=1 edit neighbourhood of the provider names "
                 "(deletions, case flips, substitutions, insertions) and ids -2..12 against the model 'changes only on an exact "
-                "compiled-in name or id'; every JWT_CRYPTO value of the quantifier by re-executing the harness with the variable set; key rotation with certain address reuse (5 algorithm families x 3 key sequences x 8 sign/verify/load provider triples, every round freeing its keyring, builder and checker before the next)"),
+                "compiled-in name or id'; every JWT_CRYPTO value of the quantifier by re-executing the harness with the variable set; key rotation with certain address reuse (5 algorithm families x 3 key sequences x 8 sign/verify/load provider triples, every round freeing its keyring, builder and checker before the next); every two-step sequence of switch operations after every JWT_CRYPTO start value (re-executed process)"),
     level_note="ES256K/secp256k1 are OpenSSL-only and excluded, as the statement scopes",
     rule=("evaluations = verifications; switching: states = 2 providers, transitions = set_crypto_ops calls compared with the model; "
           "non-trivial = cases that executed a cross-provider comparison"),
@@ -334,7 +334,7 @@ PROPS["C05"] = dict(
                 "reference must find the signature valid and of RFC 7518 width, and the header and claims a checker callback reads "
                 "must be json_equal to the builder input plus alg/typ/iat/nbf/exp.  With libcrypto's RNG replaced by a counter DRBG, "
                 "2 000 (quick) / 20 000 (thorough) ECDSA signatures per curve and provider are generated and classified by the "
-                "number of leading zero bytes of r and s; every signature with a short r or s is verified under both providers; key rotation with certain address reuse: every round's token is made with, and accepted under, that round's key"),
+                "number of leading zero bytes of r and s; every signature with a short r or s is verified under both providers; key rotation with certain address reuse: every round's token is made with, and accepted under, that round's key; expiry offsets beyond 2^31 seconds"),
     level_note="the r/s length classes, not the nonces, are what is covered; classes reached are reported as counters (GnuTLS's RNG cannot be replaced)",
     rule=("evaluations = tokens generated + verifications; non-trivial = cases (pair, provider pair, chunk of trees); "
           "roundtrips_content_equal counts full content comparisons that passed"),
@@ -355,7 +355,7 @@ PROPS["C10"] = dict(
                 "builder; every token is split into exactly three canonical unpadded base64url parts, header and payload are compared "
                 "(json_equal) with what ref_builder computes (alg forced, typ defaulted on signed tokens only, iat/nbf/exp "
                 "overriding, callback edits in that token only), the signature is checked by ref_crypto, and the builder's "
-                "GET_JSON snapshots before and after generate must be identical"),
+                "GET_JSON snapshots before and after generate must be identical; typ set to an integer; time offsets of 3000000000 and 6311520000 seconds"),
     level_note="ref_builder = bmodel_step() + check_generate() in harness/roundtrip.c; states merged on everything generate can read",
     rule=("states = distinct builder states; transitions = state x operation, each executed on the real builder by replaying the "
           "state's shortest history and observed through generate at two clocks; evaluations = generate calls compared"),
@@ -378,7 +378,7 @@ PROPS["C18"] = dict(
                 "and jansson, every OPENSSL_malloc/free call libjwt itself makes and every time() call (about 110 points per thread); every schedule with at most 1 preemption (quick) / "
                 "2 preemptions (thorough, all four algorithms with 2 threads) is executed and each thread's token and verdicts must equal its "
                 "sequential run.  Because the scheduler's hand-offs are happens-before edges, data races are looked for "
-                "separately: the same bodies free-running on 8 threads under ThreadSanitizer; mixed runs give the two threads different algorithms and keys (HS256+EdDSA, EdDSA+ES256, RS256+HS256)"),
+                "separately: the same bodies free-running on 8 threads under ThreadSanitizer; mixed runs give the two threads different algorithms and keys (HS256+EdDSA, EdDSA+ES256, RS256+HS256); an ES256K/secp256k1 configuration (refused throughout under GnuTLS on this tree)"),
     level_note="scheduling points sit at allocator and clock seams only: a static touched strictly between two adjacent points is visible to the TSan pass only; weak-memory effects are not modelled",
     rule=("states = schedules executed (each a complete execution of the real code); transitions = scheduling decisions taken; "
           "evaluations = executions compared with the sequential results; schedules_with_real_alternation counts those in which "
